@@ -231,7 +231,41 @@ func (p *Prog) Field(rel, typ, field string) *types.Var {
 			return st.Field(i)
 		}
 	}
+	// promoted from an embedded struct of the same package (the goroutine-owned fields of a
+	// type grouped into an embedded record)
+	if f := promotedField(st, field, 0); f != nil {
+		return f
+	}
 	p.Unresolved = append(p.Unresolved, rel+"."+typ+"."+field)
+	return nil
+}
+
+func promotedField(st *types.Struct, field string, depth int) *types.Var {
+	if depth > 2 {
+		return nil
+	}
+	for i := 0; i < st.NumFields(); i++ {
+		f := st.Field(i)
+		if !f.Embedded() {
+			continue
+		}
+		t := f.Type()
+		if pt, ok := t.(*types.Pointer); ok {
+			t = pt.Elem()
+		}
+		est, ok := t.Underlying().(*types.Struct)
+		if !ok {
+			continue
+		}
+		for j := 0; j < est.NumFields(); j++ {
+			if est.Field(j).Name() == field {
+				return est.Field(j)
+			}
+		}
+		if g := promotedField(est, field, depth+1); g != nil {
+			return g
+		}
+	}
 	return nil
 }
 
@@ -254,7 +288,7 @@ func (p *Prog) OptField(rel, typ, field string) *types.Var {
 			return st.Field(i)
 		}
 	}
-	return nil
+	return promotedField(st, field, 0)
 }
 
 // MutexField resolves the (first) field of a struct type whose type is sync.Mutex or
